@@ -109,6 +109,8 @@ type WorldCfg struct {
 	Presessions []Preseed `json:"presessions,omitempty"`
 	CtxAware    bool      `json:"ctxAware,omitempty"`   // storage flavour: a call whose context is done when it gets to run returns the context's error
 	TenantKeys  bool      `json:"tenantKeys,omitempty"` // storage flavour: signing keys are per tenant, found through the issuer value of the context
+	OwnSlices   bool      `json:"ownSlices,omitempty"`  // storage flavour: an in-memory storage that passes the value slices it holds itself to SetCustomAttribute (no copy per call)
+	TypedNil    bool      `json:"typedNil,omitempty"`   // storage flavour: a failing request lookup / persist returns its error next to a typed nil pointer (var r *record; return r, err)
 	Neighbours  bool      `json:"neighbours,omitempty"` // other provider instances (other issuer, other endpoint paths) are constructed in the same process
 	Shadow      bool      `json:"shadow,omitempty"`     // compare every undisturbed reply with a re-execution on a fresh provider instance (shadow.go)
 }
@@ -146,6 +148,7 @@ type Style struct {
 	BodyAndURL bool `json:"bodyAndURL,omitempty"` // POST with extra unrelated query parameters on the URL
 	Chunked    bool `json:"chunked,omitempty"`    // the body is sent with Transfer-Encoding: chunked (ContentLength unknown)
 	TextForm   int  `json:"textForm,omitempty"`   // lexical form of Issuer / NameID text: 0 plain, 1 CDATA section, 2 numeric character references, 3 split by a comment, 4 CDATA + plain
+	HoistNS    int  `json:"hoistNS,omitempty"`    // SOAP: the query's namespace declarations sit on an ancestor: 0 no, 1 soap:Envelope, 2 soap:Body
 	B64Lines   int  `json:"b64Lines,omitempty"`   // POST SAMLRequest base64 with line breaks (RFC 2045 layout): 0 none, 1 CRLF every 76, 2 LF every 64
 }
 
@@ -166,6 +169,8 @@ type MsgSpec struct {
 	Host      string `json:"host,omitempty"`
 	Forwarded string `json:"forwarded,omitempty"`
 	XFHeader  string `json:"xfHeader,omitempty"` // value for the configured custom header
+	XFWhich   int    `json:"xfWhich,omitempty"`  // with several configured header names: 0 all of them (first = the value, others a decoy), 1 only the first, 2 only the second
+	TLS       bool   `json:"tls,omitempty"`      // the request arrives over TLS at the provider itself (r.TLS set) rather than through a terminating proxy
 
 	Binding    string `json:"binding,omitempty"` // redirect | post | soap
 	Sign       string `json:"sign,omitempty"`    // "", rsa-sha1, rsa-sha256
